@@ -15,7 +15,7 @@ From Coq Require Import ZArith List Bool.
 From PTK Require Import Lib.Sx Lib.Py Model.C11_Scroll Model.C11_CopyBody
      Proofs.C11_ScrollFacts Proofs.C11_CopyFacts Proofs.C11_LiveFacts Proofs.C11_WrapFacts
      Proofs.C11_ColMapFacts Proofs.C11_SeqFacts Proofs.C11_RowsFacts Proofs.C11_VarPrefixFacts
-     Proofs.C11_Main Proofs.C11_RenderFacts Proofs.C11_DocFacts Proofs.C11_VlFacts Proofs.C11_ScreenFacts Proofs.C11_WideFacts Proofs.C11_NoWrapWide Proofs.C11_PackFacts Proofs.C11_RenderWide.
+     Proofs.C11_Main Proofs.C11_RenderFacts Proofs.C11_DocFacts Proofs.C11_VlFacts Proofs.C11_ScreenFacts Proofs.C11_WideFacts Proofs.C11_NoWrapWide Proofs.C11_PackFacts Proofs.C11_RenderWide Model.C11_Patched Proofs.C11_PatchedFacts Proofs.C11_RenderWrapWide.
 Import ListNotations.
 Open Scope Z_scope.
 
@@ -451,6 +451,120 @@ Example C11_wrap_wide_witness_not_exact :
   prows ex_sw false (fun _ _ => []) 5 2 (xline_of lines 2) = 3.
 Proof. exact wrap_wide_witness_not_exact. Qed.
 Print Assumptions C11_wrap_wide_witness_not_exact.
+
+(* (round 7) The display-width-aware estimate of
+   fixes/C11-display-width-height-estimate.patch, modelled statement by statement
+   (Model/C11_Patched.v height_for_line_patched; NOT applied to /repo): it IS
+   [prows] for a whole line and the cursor's packed row + 1 for the slice up to
+   and including the cursor cell - every displayed width >= 1, any prefixes that
+   leave room for the widest character. *)
+Theorem C11_patched_estimate_is_prows : forall dw haspfx pfx width,
+  (forall c, 1 <= dw c) -> (forall l k c, pfxw dw haspfx pfx l k + dw c <= width) ->
+  forall line l,
+  height_for_line_patched dw haspfx pfx line l width None = prows dw haspfx pfx width l line.
+Proof. exact patched_is_prows. Qed.
+Print Assumptions C11_patched_estimate_is_prows.
+
+Theorem C11_patched_estimate_slice : forall dw haspfx pfx width,
+  (forall c, 1 <= dw c) -> (forall l k c, pfxw dw haspfx pfx l k + dw c <= width) ->
+  forall line l cxc kc xc, 0 <= cxc < len line ->
+  nth_error (pack_line dw haspfx pfx width l line) (Z.to_nat cxc) = Some (kc, xc) ->
+  height_for_line_patched dw haspfx pfx line l width (Some (cxc + 1)) = kc + 1.
+Proof. exact patched_slice. Qed.
+Print Assumptions C11_patched_estimate_slice.
+
+(* (round 7) ... hence WITH the patched estimate the wrapped cursor is visible,
+   inside the window, on its character, for every displayed width >= 1 (wide
+   characters and the 2-4 cell forms of control characters), any such prefixes,
+   any previous scroll state with vertical_scroll >= 0 - NO exactness hypothesis:
+   the patch is a proved repair of C11-F13 / C11-F14 at model level (the
+   horizontal part F13b is the no-wrap scroller; zero-width marks, F2, stay
+   outside).  C11_patched_on_f14_witness: the F14 input, estimate 3, cursor drawn. *)
+Theorem C11_wrap_visible_patched :
+  forall sw dw disp haspfx pfx width height xpos ypos top bottom lines cyr cxc st allow,
+  (forall c, 1 <= dw c) -> (forall l k c, pfxw dw haspfx pfx l k + dw c <= width) ->
+  1 <= height -> 0 <= top -> 0 <= bottom -> 0 <= vs st ->
+  0 <= cyr < len lines -> 0 <= cxc < len (xline_of lines cyr) ->
+  forall kc xc,
+  nth_error (pack_line dw haspfx pfx width cyr (xline_of lines cyr)) (Z.to_nat cxc) = Some (kc, xc) ->
+  let Hfp l := height_for_line_patched dw haspfx pfx (xline_of lines l) l width None in
+  let tbhp s := height_for_line_patched dw haspfx pfx (xline_of lines cyr) cyr width (Some s) in
+  let s' := scroll_wrap allow Hfp tbhp width height top bottom cyr cxc (len lines) st in
+  let o := copy_body sw dw disp true haspfx pfx width height xpos ypos lines s' in
+  let y := sumH Hfp (vs s') (Z.to_nat cyr) - vs2 s' + kc in
+  0 <= y < height /\ 0 <= xc < width /\
+  alist_get (cr2 o) (cyr, cxc) = Some (y + ypos, xc + xpos) /\
+  exists c, nth_error (xline_of lines cyr) (Z.to_nat cxc) = Some c /\
+            cstr (scr_get (cscr o) (y + ypos) (xc + xpos)) = disp c.
+Proof. exact wrap_visible_patched. Qed.
+Print Assumptions C11_wrap_visible_patched.
+
+Example C11_patched_on_f14_witness :
+  let lines := [[97; 98; 32]; [99; 100; 32]; [30028; 30028; 30028; 30028; 122; 32]] in
+  let Hfp l := height_for_line_patched ex_sw false (fun _ _ => []) (xline_of lines l) l 5 None in
+  let tbhp s := height_for_line_patched ex_sw false (fun _ _ => []) (xline_of lines 2) 2 5 (Some s) in
+  let s' := scroll_wrap false Hfp tbhp 5 2 0 0 2 5 3 (mkss 0 0 0) in
+  let o := copy_body ex_sw ex_sw (fun c => [c]) true false (fun _ _ => []) 5 2 0 0 lines s' in
+  Hfp 2 = 3 /\ vs2 s' = 1 /\ alist_get (cr2 o) (2, 5) = Some (1, 0).
+Proof. exact patched_on_f14_witness. Qed.
+Print Assumptions C11_patched_on_f14_witness.
+
+(* (round 7) When can an inexact estimate hide the cursor?  The code AS IT IS,
+   every displayed width >= 1: the cursor is visible unless some content line is
+   UNDER-estimated by get_height_for_line, or the cursor line is (by the
+   estimate) taller than the window and the slice estimate differs from the
+   cursor's packed row + 1.  Over-estimated lines are harmless.  (Both known
+   failure families are under-estimates: source width 0 of control characters,
+   F13; row-end slack of wide characters, F14.)  Subsumes
+   C11_wrap_visible_if_exact.  The converse (every under-estimate hides the
+   cursor for SOME cursor/scroll state) is not proved. *)
+Theorem C11_wrap_visible_if_not_under :
+  forall sw dw disp haspfx pfx width height xpos ypos top bottom lines cyr cxc st allow,
+  (forall c, 0 <= sw c) -> (forall c, 1 <= dw c) -> (forall l k c, pfxw dw haspfx pfx l k + dw c <= width) ->
+  1 <= height -> 0 <= top -> 0 <= bottom -> 0 <= vs st ->
+  0 <= cyr < len lines -> 0 <= cxc < len (xline_of lines cyr) ->
+  forall kc xc,
+  nth_error (pack_line dw haspfx pfx width cyr (xline_of lines cyr)) (Z.to_nat cxc) = Some (kc, xc) ->
+  let Hfn l := height_for_line sw haspfx pfx (xline_of lines l) l width None in
+  let tbhn s := height_for_line sw haspfx pfx (xline_of lines cyr) cyr width (Some s) in
+  (forall l, 0 <= l < len lines -> prows dw haspfx pfx width l (xline_of lines l) <= Hfn l) ->
+  (height - top < Hfn cyr -> tbhn (cxc + 1) = kc + 1) ->
+  let s' := scroll_wrap allow Hfn tbhn width height top bottom cyr cxc (len lines) st in
+  let o := copy_body sw dw disp true haspfx pfx width height xpos ypos lines s' in
+  let y := sumH (Rp dw haspfx pfx width lines) (vs s') (Z.to_nat cyr) - vs2 s' + kc in
+  0 <= y < height /\ 0 <= xc < width /\
+  alist_get (cr2 o) (cyr, cxc) = Some (y + ypos, xc + xpos) /\
+  exists c, nth_error (xline_of lines cyr) (Z.to_nat cxc) = Some c /\
+            cstr (scr_get (cscr o) (y + ypos) (xc + xpos)) = disp c.
+Proof. exact wrap_visible_if_not_under. Qed.
+Print Assumptions C11_wrap_visible_if_not_under.
+
+(* (round 7) ... lifted to what [render] returns (like C11_render_screen): under
+   the same hypotheses, read off the render's own content lines / cursor / body
+   width, the verdict is rendered_cursor_ok = true, r_cursor is the registered
+   position inside the body, and the r_grid cell there shows the content
+   character at the content cursor. *)
+Theorem C11_render_wrap_wide : forall g W Hh xpos ypos text cursor st r kc xc,
+  render g W Hh xpos ypos text cursor st = Some r -> g_wrap g = true ->
+  (forall c, 0 <= tab_sw g c) -> (forall c, 1 <= tab_dw g c) ->
+  (forall l k c, pfxw (tab_dw g) (g_haspfx g) (cfg_pfx g) l k + tab_dw g c <= r_bw r) ->
+  0 <= g_top g -> 0 <= g_bottom g -> 0 <= vs st ->
+  let lines := r_lines g text in
+  let row := fst (r_ui r) in let ucol := snd (r_ui r) in
+  0 <= ucol < len (xline_of lines row) ->
+  nth_error (pack_line (tab_dw g) (g_haspfx g) (cfg_pfx g) (r_bw r) row (xline_of lines row)) (Z.to_nat ucol) = Some (kc, xc) ->
+  let Hfn l := height_for_line (tab_sw g) (g_haspfx g) (cfg_pfx g) (xline_of lines l) l (r_bw r) None in
+  let tbhn s := height_for_line (tab_sw g) (g_haspfx g) (cfg_pfx g) (xline_of lines row) row (r_bw r) (Some s) in
+  (forall l, 0 <= l < len lines -> prows (tab_dw g) (g_haspfx g) (cfg_pfx g) (r_bw r) l (xline_of lines l) <= Hfn l) ->
+  (Hh - g_top g < Hfn row -> tbhn (ucol + 1) = kc + 1) ->
+  rendered_cursor_ok W Hh xpos ypos r = true /\
+  exists Y X rowg c,
+    r_cursor r = (Y, X) /\ ypos <= Y < ypos + Hh /\ xpos + r_mw r <= X < xpos + r_mw r + r_bw r /\
+    nth_error (xline_of lines row) (Z.to_nat ucol) = Some c /\
+    nth_error (r_grid r) (Z.to_nat (Y - ypos)) = Some rowg /\
+    nth_error rowg (Z.to_nat (X - xpos - r_mw r)) = Some (tab_disp g c).
+Proof. exact render_wrap_wide. Qed.
+Print Assumptions C11_render_wrap_wide.
 
 (* The render step ITSELF (Document row/col -> BeforeInput/TabsProcessor ->
    trailing blank -> NumberedMargin / ScrollbarMargin widths -> scroll ->
